@@ -119,3 +119,19 @@ Proof.
     unfold aget. f_equal. f_equal. lia.
   - now rewrite Z.eqb_refl.
 Qed.
+
+(* non-vacuity: a 3 x 4 image, a 3 x 3 filter, the top-right pixel, the bottom-right filter entry, reflect and constant mode *)
+Example retrieve_table_example :
+  let f := {| shape := [3; 4]; data := [10; 11; 12; 13; 20; 21; 22; 23; 30; 31; 32; 33] |} in
+  let axes := rev (be_axes (shape f) [3; 3]) in
+  (shape_ok (shape f) /\ size (shape f) < border_flag_value /\ in_shape (shape f) [0; 3] /\ in_shape [3; 3] [2; 2]) /\
+  retrieve ExtendReflect f [0; 3] (psub [2; 2] (centre [3; 3])) = Some 23 /\
+  entry ExtendReflect axes (rev [0; 3]) (rev [2; 2]) 0 = 4 /\
+  nthZ 0 (data f) (ravel (shape f) [0; 3] + 4) = 23 /\
+  retrieve ExtendConstant f [0; 3] (psub [2; 2] (centre [3; 3])) = None /\
+  entry ExtendConstant axes (rev [0; 3]) (rev [2; 2]) 0 = border_flag_value.
+Proof.
+  cbv zeta. split.
+  - repeat split; try (repeat constructor; cbn; unfold border_flag_value; lia); cbn; unfold border_flag_value; lia.
+  - vm_compute. repeat split; reflexivity.
+Qed.
